@@ -306,6 +306,12 @@ def check_dedup(spec):
             cols = subset or list(pdf.columns)
             # only the subset columns of the survivors are determined across partitions
             _same_multiset(got[cols], want[cols], f"drop_duplicates(subset={subset}, keep={keep}, split_out={so})", sig, with_index=False)
+            if so is not True and so == 1:
+                # without a shuffle (split_out=1) the chunks are reduced in partition order, so "first"/"last" occurrence
+                # means what it means in pandas: the surviving ROWS (payload columns and index included) are determined
+                # (reference on the rows in the collection's own order: from_pandas(sort=True) reorders an unsorted frame)
+                want_rows = F.compute(ddf).drop_duplicates(subset=subset, keep=keep, ignore_index=op["ignore_index"])
+                _same_multiset(got, want_rows, f"drop_duplicates(subset={subset}, keep={keep}, split_out=1) full rows", dict(sig, clause="kept-rows"), with_index=not op["ignore_index"])
             src = C.row_multiset(pdf, with_index=not op["ignore_index"])
             for k in C.row_multiset(got, with_index=not op["ignore_index"]):
                 ensure(k in src, f"drop_duplicates returned a row that is not an input row: {k}", "foreign-row", **sig)
